@@ -137,6 +137,27 @@ def check(case, pid):
                 ok = bool(np.allclose(np.asarray(tp.value, dtype=float), wexp / wbase))
                 res.check("filtercols", ok, "filtercols/table_proportions",
                           None if ok else {"cube": j, "got": repr(tp)[:200]})
+        elif pid == "C17":
+            keep = [True] * N if j == 0 else case["filters"][j - 1]
+            frac = float(sum(keep)) / N if N else float("nan")
+            pop = case["population"]
+            with np.errstate(divide="ignore", invalid="ignore"):
+                p_ = wexp / wbase if wbase > 0 else np.full(wexp.shape, np.nan)
+                se = np.sqrt(p_ * (1 - p_) / wbase) if wbase > 0 else np.full(wexp.shape,
+                                                                              np.nan)
+            g = read(part, "population_counts")
+            ok = g.ok and np.asarray(g.value).shape == p_.shape and bool(np.allclose(
+                np.asarray(g.value, dtype=float), p_ * pop * frac, rtol=1e-9, atol=1e-9,
+                equal_nan=True))
+            res.check("filtercols_population", ok, "filtercols/population_counts",
+                      None if ok else {"cube": j, "got": repr(g)[:200],
+                                       "exp": (p_ * pop * frac).tolist()})
+            g = read(part, "population_counts_moe")
+            ok = g.ok and np.asarray(g.value).shape == p_.shape and bool(np.allclose(
+                np.asarray(g.value, dtype=float), 1.959964 * pop * frac * se, rtol=1e-9,
+                atol=1e-7, equal_nan=True))
+            res.check("filtercols_population", ok, "filtercols/population_counts_moe",
+                      None if ok else {"cube": j, "got": repr(g)[:200]})
         else:
             ub = read(part, "unweighted_bases")
             okb = ub.ok and bool(np.array_equal(np.asarray(ub.value, dtype=float),
